@@ -37,16 +37,28 @@ def esc_text(v: str) -> str:
 
 
 class Writer:
-    def __init__(self, version: str, quote: str = '"', indent: bool = True):
+    def __init__(self, version: str, quote: str = '"', indent: bool = True, style=None):
         self.v = version
         self.ge11 = version != '1.0'
         self.q = quote
         self.out: list[str] = []
         self.indent = indent
+        # lexical variations that must not matter to a conforming reader
+        # style = {'seed': int, 'shuffle_attrs': bool, 'cdata': bool, 'comments': bool,
+        #          'charrefs': bool}
+        self.style = style or {}
+        import random as _random
+        self.srng = _random.Random('style:%s' % self.style.get('seed', 0))
 
     # -- primitives -----------------------------------------------------------------
     def attrs(self, pairs) -> str:
         q = self.q
+        pairs = [(k, v) for k, v in pairs if v is not None]
+        if self.style.get('shuffle_attrs'):
+            self.srng.shuffle(pairs)
+        if self.style.get('mixed_quotes'):
+            return ''.join(' %s=%s%s%s' % (k, qq, esc_attr(str(v), qq), qq)
+                           for (k, v), qq in ((pv, self.srng.choice('"\'')) for pv in pairs))
         return ''.join(' %s=%s%s%s' % (k, q, esc_attr(str(v), q), q)
                        for k, v in pairs if v is not None)
 
@@ -64,6 +76,17 @@ class Writer:
 
     def line(self, depth, s):
         self.out.append(('  ' * depth if self.indent else '') + s)
+        if self.style.get('comments') and len(self.out) > 3 and self.srng.random() < 0.15:
+            self.out.append('<!-- <Lexicon id="fake" version="0"> %s & -->'
+                            % self.srng.choice(['x', '>', 'é']))
+
+    def etext(self, v: str) -> str:
+        if self.style.get('cdata') and ']]>' not in v and self.srng.random() < 0.4:
+            return '<![CDATA[%s]]>' % v
+        t = esc_text(v)
+        if self.style.get('charrefs'):
+            t = ''.join(c if ord(c) < 128 else '&#x%X;' % ord(c) for c in t)
+        return t
 
     def empty(self, depth, name, pairs):
         self.line(depth, '<%s%s/>' % (name, self.attrs(pairs)))
@@ -75,7 +98,7 @@ class Writer:
         self.line(depth, '</%s>' % name)
 
     def textelem(self, depth, name, pairs, text):
-        self.line(depth, '<%s%s>%s</%s>' % (name, self.attrs(pairs), esc_text(text), name))
+        self.line(depth, '<%s%s>%s</%s>' % (name, self.attrs(pairs), self.etext(text), name))
 
     # -- document -------------------------------------------------------------------
     def resource(self, lexdocs) -> str:
@@ -239,10 +262,10 @@ class Writer:
         self.close(2, name)
 
 
-def resource_xml(universe, resource, quote='"', indent=True, lexdocs=None) -> bytes:
+def resource_xml(universe, resource, quote='"', indent=True, lexdocs=None, style=None) -> bytes:
     docs = lexdocs if lexdocs is not None else [universe['lexicons'][sp]
                                                 for sp in resource['lexicons']]
-    return Writer(resource['lmf_version'], quote, indent).resource(docs).encode('utf-8')
+    return Writer(resource['lmf_version'], quote, indent, style).resource(docs).encode('utf-8')
 
 
 def ili_tsv(ili_file) -> bytes:
